@@ -296,6 +296,12 @@ def gen_having(rng, comp_candidates: List[Tuple[Any, str]]):
             lhs: Any = ["agg", op, c]
             if rng.random() < 0.1 and op != "count":
                 lhs = ["bin", "+", lhs, ["lit", "Integer", 1]]
+            x = rng.random()
+            if x < 0.12:      # two aggregates of the group compared with each other: sum(x) > count(x), max(x) <= avg(x) + count()
+                rhs: Any = rng.choice([["agg", rng.choice(HAVING_OPS), c], ["count"]])
+                if rng.random() < 0.3:
+                    rhs = ["bin", rng.choice(["+", "-"]), rhs, rng.choice([["agg", "count", c], ["lit", "Integer", 1]])]
+                return ["bin", rng.choice(list(CMP)), lhs, rhs]
             return ["bin", rng.choice(list(CMP)), lhs, ["lit", lt, str(v) if isinstance(v, Fraction) else v]]
         op = rng.choice(["min", "max", "count"])
         if op == "count":
@@ -404,6 +410,25 @@ def having_comps(h, acc=None):
     elif h[0] == "paren":
         having_comps(h[1], acc)
     return acc
+
+
+def is_group_valued(h) -> bool:
+    """the sub-condition depends on the group (contains an aggregate), i.e. the engine analyses it as a dataset"""
+    if h is None or h[0] == "lit":
+        return False
+    if h[0] in ("agg", "count"):
+        return True
+    if h[0] == "bin":
+        return is_group_valued(h[2]) or is_group_valued(h[3])
+    return is_group_valued(h[2] if h[0] == "un" else h[1])
+
+
+def combines_two_aggregates(h) -> bool:
+    if h is None or h[0] in ("agg", "count", "lit"):
+        return False
+    if h[0] == "bin":
+        return (is_group_valued(h[2]) and is_group_valued(h[3])) or combines_two_aggregates(h[2]) or combines_two_aggregates(h[3])
+    return combines_two_aggregates(h[2] if h[0] == "un" else h[1])
 
 
 def has_andor(h) -> bool:
@@ -990,6 +1015,10 @@ def bucket(n, edges=((0, 0, "0"), (1, 1, "1"), (2, 3, "2-3"), (4, 10, "4-10"), (
 def disagreement_key(c, er, verdict_engine_bad: bool) -> str:
     s = c["stmts"][-1][1]
     form = "standalone" if s["kind"] == "agg" else "clause"
+    if (not er["ok"] and er["err"][1] == "1-1-14-1" and combines_two_aggregates(s.get("having"))):
+        # the having analysis names the per-group values like dataset measures (Me_1 / int_var / bool_var) and refuses to combine
+        # two of them when the names differ
+        return "having:combines-two-aggregates:measure-names-dont-match"
     if c.get("limitation"):
         # the error class/code is NOT part of the key (it changes when the engine wraps raw errors); it is reported in `what`
         return f"{c['limitation']}:{'engine-error' if not er['ok'] else 'wrong-result'}"
